@@ -340,6 +340,12 @@ def gen_tod(tier):
                 yield {'pts': pts, 'kind': 'series', 'sub': True}            # the sub-second grid
             if r in ((2, 5) if tier == 'quick' else (1, 2, 3, 4, 5, 6)):
                 yield {'pts': pts, 'kind': 'series', 'tz': True}             # a tz-aware index (+09:00): the time of day is the row's own wall clock
+    # ONE timestamp occurring twice (two observations of one instant), in and out of ordinary and wrapped windows: both rows are in or both are out, once each
+    for hs in ([(1,), (0, 3), (2, 5), (1, 7), (0, 4, 11)] if tier == 'quick' else [c for r in (1, 2, 3) for c in itertools.combinations(range(12), r) if r < 3 or c[0] < 2]):
+        for j in range(len(hs)):
+            yield {'pts': list(hs[:j + 1]) + list(hs[j:]), 'kind': 'series', 'dup': True}
+            if j == 0:
+                yield {'pts': list(hs[:j + 1]) + list(hs[j:]), 'kind': 'frame', 'dup': True}
     if tier == 'thorough':
         # every subset of the 12 points (Series); the symmetric ones were done above
         for m in range(1 << 12):
@@ -379,9 +385,38 @@ def check_tod(case):
     if case.get('tz'):
         stamps = [t.replace(tzinfo=TZ9) for t in stamps]
     present = set(grid[i % 6] for i in pts)
-    subj = _Subject(kind, stamps, pts)
+    subj = _Subject(kind, stamps, list(range(len(pts))) if case.get('dup') else pts)
     default = _default_brackets()
     spellings = [(oc, oc) for oc in BRACKETS] + ([('tuple', default)] if default in BRACKETS else [])
+    if not case.get('sub') and not case.get('tz') and pts:
+        # ONE bound a date, the other a time of day: each bound is compared in its own way (the date with the timestamp, the time with the row's time of day)
+        dates = [BASE + H12, BASE + DAY, BASE + DAY + H12]
+        for d in dates:
+            for th in bounds[1::2] + bounds[2:3]:
+                for lb, ub in ((d, th), (th, d)):
+                    for oc in BRACKETS:
+                        out.sub()
+                        lc, uc = _closed_pair(oc)
+                        if isinstance(lb, datetime.time):
+                            keep = [_keep(t.time(), lb, None, lc, uc) and _keep(t, None, ub, lc, uc) for t in stamps]
+                        else:
+                            keep = [_keep(t, lb, None, lc, uc) and _keep(t.time(), None, ub, lc, uc) for t in stamps]
+                        label = 'df_slice(%s %s, %s, %s, %r)' % (kind, [str(t)[5:13] for t in stamps], lb, ub, oc)
+                        sig = dict(oc=oc, kind=kind, mixed='time-date' if isinstance(lb, datetime.time) else 'date-time', dup=bool(case.get('dup')))
+                        try:
+                            res = df_slice(subj.obj, lb, ub, oc)
+                            out.call()
+                        except Exception as e:
+                            out.viol('tod-raised', '%s raised %s: %s' % (label, type(e).__name__, e), **sig)
+                            subj.rebuild()
+                            continue
+                        subj.compare(out, res, keep, label, sig, pre='tod')
+                        if not subj.untouched():
+                            out.viol('tod-argument-modified', '%s changed its argument to %s' % (label, _show(subj.obj)), **sig)
+                            subj.rebuild()
+                        out.cls('tod:mixed-kinds')
+                        if any(keep) and not all(keep):
+                            out.nontrivial('mixed|%s|%s|%s' % (lb, ub, oc))
     for lh in bounds:
         lb = lh
         for uh in bounds:
@@ -400,7 +435,7 @@ def check_tod(case):
                 label = 'df_slice(%s %s, %s)' % (kind, [str(t)[5:13] if not case.get('sub') else str(t)[5:] for t in stamps],
                                                  '(%s, %s)' % (lb, ub) if spell == 'tuple' else '%s, %s, %r' % (lb, ub, oc))
                 sig = dict(oc=oc, kind=kind, wrap=wrap, spell='tuple' if spell == 'tuple' else 'args', tz=bool(case.get('tz')), lb='none' if lh is None else 'on-point' if lh in present else 'off-point',
-                           ub='none' if uh is None else 'on-point' if uh in present else 'off-point', empty_index=not pts)
+                           ub='none' if uh is None else 'on-point' if uh in present else 'off-point', empty_index=not pts, dup=bool(case.get('dup')))
                 try:
                     res = df_slice(subj.obj, (lb, ub)) if spell == 'tuple' else df_slice(subj.obj, lb, ub, oc)
                     out.call()
